@@ -805,7 +805,7 @@ func main() {
 	}
 	n := 300
 	if a.Thorough() {
-		n = 6000
+		n = 3000
 	}
 	for _, sp := range corpus() {
 		runStore(out, sp, "corpus")
